@@ -206,3 +206,45 @@ func VerifH_C07_ClientGroups() {
 		verifrt.Reach("same-label")
 	}
 }
+
+// VerifH_C07_StoreKeyedByAskedQuestion: a cached answer belongs to the question the CLIENT asked — whatever question
+// the upstream's reply carries (nothing validates the echo: another name, the same name in another letter case,
+// another type or class, no question at all). Store(asked, client, reply) followed one second later (harness clock) by
+// lookups: the asked question is a hit, and the reply's own question — when it differs from the asked one — is not.
+func VerifH_C07_StoreKeyedByAskedQuestion() {
+	verifrt.Unwind(200)
+	verifrt.CtxNoExpiry = true
+	base := time.Unix(1700000000, 0)
+	offset := time.Duration(0)
+	verifrt.Redirect("time.Now", func() time.Time { return base.Add(offset) })
+	verifrt.Redirect("time.Until", func(t time.Time) time.Duration { return t.Sub(base.Add(offset)) })
+	verifrt.Redirect("time.Since", func(t time.Time) time.Duration { return base.Add(offset).Sub(t) })
+	r := vRouter(nil, true)
+	asked := dnsmsg.NewQuestion()
+	asked.Name, asked.Type, asked.Class = dnsmsg.Name([]byte{1, 'q'}), 1, 1
+	reply := dnsmsg.NewMsg()
+	reply.Header.Response = true
+	var echoed *dnsmsg.Question
+	if verifrt.Bool("reply.has-question") {
+		echoed = dnsmsg.NewQuestion()
+		echoed.Name = dnsmsg.Name([]byte{1, verifrt.Byte("echo.label")})
+		echoed.Type, echoed.Class = dnsmsg.Type(verifrt.U16("echo.type")), dnsmsg.Class(verifrt.U16("echo.class"))
+		reply.Questions = append(reply.Questions, echoed.Copy())
+	}
+	a := dnsmsg.NewA()
+	a.Name, a.Type, a.Class, a.TTL = dnsmsg.Name([]byte{1, 'q'}), dnsmsg.TypeA, 1, 60
+	reply.Answers = append(reply.Answers, a)
+	client := netip.AddrFrom4([4]byte{198, 51, 100, 7})
+	r.cache.Store(asked, client, reply)
+	offset = time.Second
+	rc := getRequestContext()
+	rc.RemoteAddr = netip.AddrPortFrom(client, 999)
+	hit, _, _ := r.cache.Get(context.Background(), asked, rc)
+	verifrt.Reach("looked-up")
+	verifrt.Assert(hit != nil && len(hit.Answers) == 1, "the answer is filed under the question that was asked: its repeat is a hit")
+	if echoed != nil && !(echoed.Name[1] == 'q' && echoed.Type == 1 && echoed.Class == 1) {
+		verifrt.Reach("foreign-echo")
+		other, _, _ := r.cache.Get(context.Background(), echoed, rc)
+		verifrt.Assert(other == nil, "and not under the question the upstream happened to echo")
+	}
+}
